@@ -53,14 +53,14 @@ def _cfg(name):
         return fh.read()
 
 
-def _mc_cfg(ndays, dev, grid="MCGrid"):
-    base = _cfg("ListRangeMC.cfg")
+def _mc_cfg(ndays, dev, grid="MCGrid", slots="MCSlots"):
+    base = _cfg("ListRangeMC.cfg").replace("Slots <- MCSlots", "Slots <- " + slots)
     base = base.replace("NDays = 2", "NDays = %d" % ndays).replace("Grid <- MCGrid", "Grid <- " + grid)
     return {"cfg_text": base.replace("Dev = {}", "Dev = {%s}" % ", ".join('"%s"' % d for d in dev))}
 
 
-def _gen_cfg(masks):
-    base = _cfg("ListRangeGen.cfg")
+def _gen_cfg(masks, slots="MCSlots"):
+    base = _cfg("ListRangeGen.cfg").replace("Slots <- MCSlots", "Slots <- " + slots)
     i, j = base.index("Pick = {"), base.index("}", base.index("Pick = {"))
     return {"cfg_text": base[:i] + "Pick = {%s" % ", ".join(str(m) for m in sorted(masks)) + base[j:]}
 
@@ -114,8 +114,8 @@ def main():
     qevery = 24 if thorough else 6
 
     with vlib.Scratch("verif-c12-") as sc:
-        def gen(tag, ms, workers):
-            g = vlib.tlc(FAMILY, "ListRangeGen", _gen_cfg(ms), scratch=_sub(sc, "g-" + tag), timeout=1500, heap="3g",
+        def gen(tag, ms, workers, slots="MCSlots"):
+            g = vlib.tlc(FAMILY, "ListRangeGen", _gen_cfg(ms, slots), scratch=_sub(sc, "g-" + tag), timeout=1500, heap="3g",
                          env_extra=JENV, workers=workers)
             vlib.expect_tlc_ok(g, "ListRangeGen " + tag)
             if g.violation:
@@ -128,7 +128,16 @@ def main():
                              "spec inconsistency: Algo without deviations differs from Summary for mask %d" % b["mask"])
             return g, behs
 
+        # the last chunk is the midnight family: same masks drawn again, first write-out of a day at 00:00:00
+        midmasks = sorted(set(random.Random(run.seed + 7).sample(allmasks, 256 if thorough else 4)) | {(1 << NWRITES) - 1, 16, 17})
+
         def pipeline(i):
+            if i == nchunks:
+                g, behs = gen("mid", midmasks, 3 if thorough else 2, "MCSlotsMidnight")
+                for b in behs:
+                    b["mask"] += 1 << NWRITES      # distinct identity for descriptors and replays
+                f, s = _replay(vh, sc, "mid", behs, run.seed, qevery)
+                return g, f, s, None
             g, behs = gen("c%d" % i, chunks[i], 3 if thorough else 2)
             f, s = _replay(vh, sc, "c%d" % i, behs, run.seed, qevery)
             smp = behs[len(behs) // 2]
@@ -139,13 +148,14 @@ def main():
         # M: the design without deviations must satisfy the definition on the whole family (2 days quick, 3 days thorough);
         #    a 1-day run with -coverage is the vacuity guard; each named deviation alone must violate the invariant.
         mjobs = {"repaired": (_mc_cfg(3 if thorough else 2, ()), dict(workers=4 if thorough else 3, heap="6g")),
+                 "midnight": (_mc_cfg(2, (), slots="MCSlotsMidnight"), dict(workers=3, heap="6g")),
                  "cover": (_mc_cfg(1, ()), dict(coverage=True, workers=1, heap="2g"))}
         for d in DEVS:
             mjobs["dev" + d] = (_mc_cfg(2, (d,), "NegGrid"), dict(workers=1, heap="2g"))   # workers=1: deterministic counterexample
         with ThreadPoolExecutor(max_workers=len(mjobs)) as mex, ThreadPoolExecutor(max_workers=par) as fex:
             mfut = {k: mex.submit(vlib.tlc, FAMILY, "ListRangeMC", cfg, scratch=_sub(sc, "m-" + k), timeout=800,
                                   env_extra=JENV, **kw) for k, (cfg, kw) in mjobs.items()}
-            ffut = [fex.submit(pipeline, i) for i in range(nchunks)]
+            ffut = [fex.submit(pipeline, i) for i in range(nchunks + 1)]
             res = {k: f.result() for k, f in mfut.items()}
             outs = [f.result() for f in ffut]
 
@@ -156,6 +166,10 @@ def main():
                                       % (r.violation, "\n".join(r.cex[:40])))
         vlib.require(r.distinct > (2000000 if thorough else 100000), "model run explored too few states")
         run.add_tlc(r, "ListRangeMC NDays=%d Dev={}" % ndays)
+        rm = vlib.expect_tlc_ok(res["midnight"], "ListRangeMC midnight")
+        if rm.violation:
+            raise vlib.MachineryError("ListRange design (midnight slots) violates %s (spec error, not a code verdict)" % rm.violation)
+        run.add_tlc(rm, "ListRangeMC NDays=2 Dev={} first write-out at midnight")
         cv = vlib.expect_tlc_ok(res["cover"], "ListRangeMC coverage")
         vlib.require(cv.violation is None, "ListRangeMC NDays=1 violates %s" % cv.violation)
         for a in ("WriteBlock", "SkipSlot", "List", "AddDay", "SubtractBefore", "SubtractAfter"):
@@ -185,7 +199,8 @@ def main():
         gsum.distinct = sum(o[0].distinct for o in outs)
         gsum.depth = max(o[0].depth for o in outs)
         gsum.wall = sum(o[0].wall for o in outs)
-        run.add_tlc(gsum, "ListRangeGen (%d chunks)" % nchunks)
+        run.add_tlc(gsum, "ListRangeGen (%d chunks + midnight family of %d DBs)" % (nchunks, len(midmasks)))
+        run.cov["midnight_family_dbs"] = len(midmasks)
         run.sample({"kind": "generated DB and one of its 120 range cases", **outs[0][3]})
 
         run.count(total.get("steps", 0) + total.get("cases", 0) + total.get("queries", 0))
@@ -200,7 +215,7 @@ def main():
         run.cov["cases_failed"] = total.get("failed_cases", 0)
         run.cov["cases_agreeing_with_as_built_model"] = total.get("asbuilt_agree", 0)
         run.cov["failure_classes"] = total.get("fail_counts", {})
-        vlib.require(total.get("cases", 0) >= 120 * (len(masks) - 1), "too few cases executed")
+        vlib.require(total.get("cases", 0) >= 120 * (len(masks) + len(midmasks) - 2), "too few cases executed")
         vlib.require(total.get("queries", 0) > 0, "no engine query was compared")
         if total.get("asbuilt_agree", 0) != total.get("cases", 0):
             run.note("the model of ReadMetadata as read from the code (Dev={A,B,C}) no longer predicts every listing: %d of %d"
